@@ -315,3 +315,37 @@ Proof.
       apply IH; auto. intros; apply Hc; now right. }
   apply G; [assumption | right | right]; split; reflexivity.
 Qed.
+
+(* ================================================================= Wernet-Nilsson: the decision spelled out *)
+(* r_DA < cut - const * delta^2, as evaluated by the model: every comparison strict; r = |DA| is first
+   compared exactly with the apex distance; the angle part is the fixed-point evaluation of
+   delta < sqrt((cut - r)/const) degrees, i.e. cos(delta) > cos(that bound) *)
+Definition wn_slack (p : wn_params) (a2 : Z) : Z :=
+  fx_of_q (fst (wn_cut p)) (snd (wn_cut p)) - fx_sqrt (a2 * SC) / wn_G p.
+Definition wn_phi (p : wn_params) (a2 : Z) : Z :=
+  fx_mul (fx_sqrt (fx_div (wn_slack p a2) (fx_of_q (fst (wn_const p)) (snd (wn_const p))))) (PI_fx / 180).
+Definition wn_cosd (a2 b2 c2 : Z) : Z := (a2 + b2 - c2) * SC * SC / (2 * Z.sqrt (a2 * b2 * SC * SC)).
+Definition wn_cosphi (phi : Z) : Z := if 7 * SC <? 4 * phi then fx_cos phi else fx_cos_small phi.
+
+Lemma wn_spec : forall p f d h a,
+  let a2 := dist2 (wn_periodic p) f d a in
+  let b2 := dist2 (wn_periodic p) f d h in
+  let c2 := dist2 (wn_periodic p) f h a in
+  wn_presence p f (d, h, a) = true <->
+  dist_lt a2 (fst (wn_cut p) * wn_G p) (snd (wn_cut p)) = true /\
+  0 < wn_slack p a2 /\ 0 < a2 * b2 /\
+  (PI_fx <= wn_phi p a2 \/ wn_cosphi (wn_phi p a2) < wn_cosd a2 b2 c2).
+Proof.
+  intros p f d h a a2 b2 c2. unfold wn_presence. fold a2 b2 c2.
+  destruct (dist_lt a2 (fst (wn_cut p) * wn_G p) (snd (wn_cut p))) eqn:D; cbn [negb].
+  2:{ split; [discriminate | intros (H & _); discriminate]. }
+  fold (wn_slack p a2).
+  destruct (wn_slack p a2 <=? 0) eqn:S; [apply Z.leb_le in S | apply Z.leb_gt in S].
+  { split; [discriminate | intros (_ & H & _); lia]. }
+  destruct (a2 * b2 <=? 0) eqn:AB; [apply Z.leb_le in AB | apply Z.leb_gt in AB].
+  { split; [discriminate | intros (_ & _ & H & _); lia]. }
+  fold (wn_phi p a2). fold (wn_cosd a2 b2 c2). fold (wn_cosphi (wn_phi p a2)).
+  destruct (PI_fx <=? wn_phi p a2) eqn:P; [apply Z.leb_le in P | apply Z.leb_gt in P].
+  - split; [intros _; repeat split; auto | reflexivity].
+  - rewrite Z.ltb_lt. split; [intros H; repeat split; auto | intros (_ & _ & _ & [H | H]); [lia | assumption]].
+Qed.
